@@ -10,7 +10,8 @@
    NOT COVERED: timeFormat, now, toDay (the model answers Unk: clock_and_format_not_modelled);
    zones with daylight saving (the model has fixed-offset zones only). *)
 From Coq Require Import String Ascii.
-From Formula Require Import Sem.Eval Proofs.BuiltinDateFacts.
+From Coq Require Import List ZArith.
+From Formula Require Import Gen.Effects Conc.Footprint Sem.Value Sem.Builtins Sem.Clock Sem.Eval Proofs.BuiltinDateFacts Proofs.ClockFacts.
 Local Open Scope Z_scope.
 
 (* ---- the reference calendar, spelled out ---- *)
@@ -185,13 +186,47 @@ Theorem useTimezone_examples :
     (1970, 1, 2, 7, 59, 59).
 Proof. exact BuiltinDateFacts.ex_useTimezone. Qed.
 
-(* ---- timeFormat, now, toDay: NOT COVERED ---- *)
+(* ---- now, toDay: functions of the one clock reading the code takes ---- *)
+
+(* the code side (effect table regenerated from the SSA form on every run): the environment is read by funNow and
+   funToDay only, each at exactly one call site of time.Now - year, month and day of toDay come from one instant *)
+Theorem clock_read_once : env_discipline = true.
+Proof. exact environment_read_by_clock_builtins_once. Qed.
+
+Theorem toDay_is_local_midnight : forall t,
+  t_hour (today_of t) = 0 /\ t_minute (today_of t) = 0 /\ t_second (today_of t) = 0 /\
+  t_days (today_of t) = t_days t /\ t_off (today_of t) = t_off t /\
+  t_year (today_of t) = t_year t /\ t_month (today_of t) = t_month t /\ t_day (today_of t) = t_day t.
+Proof. exact today_is_local_midnight. Qed.
+
+Theorem toDay_brackets_reading : forall t, t_ns (today_of t) <= t_ns t < t_ns (today_of t) + 86400 * NS.
+Proof. exact today_brackets_reading. Qed.
+
+Theorem toDay_within_call : forall lo hi t, in_bracket lo hi t -> t_days lo <= t_days (today_of t) <= t_days hi.
+Proof. exact today_within_call. Qed.
+
+Theorem now_within_call : forall lo hi t, in_bracket lo hi t -> t_ns lo <= t_ns (now_of t) <= t_ns hi.
+Proof. exact ClockFacts.now_within_call. Qed.
+
+Theorem toDay_example :
+  today_of (mkTime 1700000000123456789 19800) = mkTime 1699986600000000000 19800 /\
+  t_hour (mkTime 1699986600000000000 19800) = 0 /\ t_day (mkTime 1699986600000000000 19800) = 15.
+Proof. exact today_example. Qed.
+
+(* ---- timeFormat: NOT COVERED; now / toDay inside a formula: the evaluator model has no clock (Unk), the clock
+   model above is compared with the implementation separately ---- *)
 
 Theorem clock_and_format_not_modelled : forall off t s,
   builtin_apply off (str "now") [] = Unk /\ builtin_apply off (str "toDay") [] = Unk /\
   builtin_apply off (str "timeFormat") [VTime t; VStr s] = Unk.
 Proof. exact BuiltinDateFacts.clock_and_format_not_modelled. Qed.
 
+Print Assumptions clock_read_once.
+Print Assumptions toDay_is_local_midnight.
+Print Assumptions toDay_brackets_reading.
+Print Assumptions toDay_within_call.
+Print Assumptions now_within_call.
+Print Assumptions toDay_example.
 Print Assumptions gregorian_rules.
 Print Assumptions days_civil_inverse.
 Print Assumptions civil_days_inverse.
